@@ -451,22 +451,51 @@ DEPS = [[], ["a"], ["b"], ["a", "b"]]
 LAGSETS = [[1], [2], [3], [1, 2], [1, 3], [2, 3], [1, 2, 3]]
 
 
+def seq_configs(tier):
+    """(state sizes, real, data kind, layout) combinations of a tier (documented in bounds())."""
+    thorough = tier == "thorough"
+    out = []
+    for npairs in range(1, (3 if thorough else 2) + 1):
+        for sizes in _tuples([1, 2, 3], npairs):
+            out.append((sizes, 0, "g", 0))
+            if npairs <= (2 if thorough else 1):
+                out.append((sizes, 0, "z", 0))
+                out.append((sizes, 1, "g", 0))
+            if thorough and npairs <= 2:
+                out.append((sizes, 0, "g", 1))
+    return out
+
+
 def seq_cases(tier):
     thorough = tier == "thorough"
     out = []
     for T in range(1, (12 if thorough else 8) + 1):
-        for npairs in range(1, (3 if thorough else 2) + 1):
-            for sizes in _tuples([1, 2, 3], npairs):
-                for deps in DEPS:
-                    for dep_time in (1, 0):
-                        for real, fill in ((0, "g"), (0, "z"), (1, "g")):
-                            for layout in ((0, 1) if thorough else (0,)):
-                                for sr in markov.SEMIRINGS:
-                                    entries = SEQ_ENTRIES + ["mixed:%d" % k for k in range(1, T + 2)]
-                                    if deps:
-                                        entries = entries + ["mp_time_collide"]
-                                    for e in entries:
-                                        out.append(["seq", sr, T, sizes, deps, dep_time, real, fill, layout, e])
+        for sizes, real, fill, layout in seq_configs(tier):
+            for deps in DEPS:
+                for dep_time in (1, 0):
+                    for sr in markov.SEMIRINGS:
+                        entries = SEQ_ENTRIES + ["mixed:%d" % k for k in range(1, T + 2)]
+                        if deps:
+                            entries = entries + ["mp_time_collide"]
+                        for e in entries:
+                            out.append(["seq", sr, T, sizes, deps, dep_time, real, fill, layout, e])
+    return out
+
+
+def sb_varsets(tier):
+    out = []
+    for lags in LAGSETS:
+        out.append([["x", 2, lags]])
+    for lags in LAGSETS:
+        out.append([["x", 2, lags], ["u", 2, []]])
+    # each lag on its own variable (funsor's block tensor grows as size^(period+lag) per variable: the third
+    # variable of the {1,2,3} split needs 2^24 cells and was seen to end in MemoryError, so it is not enumerated)
+    out.append([["x", 2, [1]], ["y", 3, [2]]])
+    out.append([["x", 2, [1]], ["y", 3, [3]]])
+    out.append([["x", 2, [2]], ["y", 2, [3]]])
+    if tier == "thorough":
+        for lags in LAGSETS:
+            out.append([["x", 3, lags]])
     return out
 
 
@@ -475,20 +504,13 @@ def sb_cases(tier):
     out = []
     globsets = [[], [["g", 2]]] + ([[["g", 2], ["h", 3]]] if thorough else [])
     for T in range(1, (10 if thorough else 8) + 1):
-        for size in (2, 3) if thorough else (2,):
-            varsets = []
-            for lags in LAGSETS:
-                varsets.append([["x", size, lags]])
-                if len(lags) > 1:
-                    varsets.append([["xyz"[i], (size, 5 - size, size)[i], [lag]] for i, lag in enumerate(lags)])
-            varsets = varsets + [vs + [["u", 2, []]] for vs in varsets]
-            for vs in varsets:
-                for globs in globsets:
-                    for fill in ("g", "z"):
-                        for layout in (0, 1) if thorough else (0,):
-                            for sr in markov.SEMIRINGS:
-                                for e in ["naive", "np:1", "np:2", "np:3"]:
-                                    out.append(["sb", sr, T, vs, globs, fill, layout, e])
+        for vs in sb_varsets(tier):
+            for globs in globsets:
+                for fill in ("g", "z"):
+                    for layout in (0, 1) if thorough else (0,):
+                        for sr in markov.SEMIRINGS:
+                            for e in ["naive", "np:1", "np:2", "np:3"]:
+                                out.append(["sb", sr, T, vs, globs, fill, layout, e])
     return out
 
 
